@@ -846,6 +846,68 @@ def opHIST (args obs : List String) : P String := do
     pure (functional (run x0 steps) obs)
   | _ => throw "HIST: arity"
 
+def showRounding : Rounding → String
+  | .trunc => "trunc" | .fix => "fix" | .floor => "floor" | .ceil => "ceil" | .around => "around"
+def showOverflow : Overflow → String
+  | .saturate => "saturate" | .wrap => "wrap"
+
+def pHStep (tok : String) : P HStep := do
+  match tok.splitOn ":" with
+  | ["N", a, s, n, f, r, c] => do pure (.create a (← pFmt s n f) (← pNat r) (← pNat c))
+  | ["K", b, a] => pure (.likeKw b a)
+  | ["C", b, a] => pure (.deepcopy b a)
+  | ["L", b, a, t] => pure (.likeM b a t)
+  | ["V", b, a, s, n, f] => do pure (.conv b a (← pFmt s n f))
+  | ["A", c, a, b] => pure (.add c a b)
+  | ["P", c, a, b] => pure (.add c a b)
+  | ["B", c, a] => pure (.invert c a)
+  | ["S", c, a, n] => do pure (.lshift c a (← pNat n))
+  | ["X", v, a, i] => do pure (.index v a (← pNat i))
+  | ["W", a, vs] => do pure (.write a (← pList pRat vs))
+  | ["I", a, i, v] => do pure (.windex a (← pNat i) (← pRat v))
+  | ["G", a, r, o] => do pure (.setCfg a ⟨← pRounding r, ← pOverflow o⟩)
+  | ["R", a] => pure (.reset a)
+  | _ => throw s!"bad heap step {tok}"
+
+def showObj (h : Heap) (x : HObj) : String :=
+  let fl := h.flagsOf x
+  let c := h.cfgOf x
+  s!"{x.name}={showSigned x.fmt.signed},{x.fmt.nword},{x.fmt.nfrac}={showList toString (h.codes x)}={showRounding c.r},{showOverflow c.o}={showBool fl.ov}{showBool fl.un}{showBool fl.ia}"
+
+/-- which pairs of live objects share a config cell (c), a status cell (s) or overlap in a buffer (b). -/
+def sharing (h : Heap) : String :=
+  let objs := h.objs
+  let pairs := objs.zipIdx.flatMap (fun (p : HObj × Nat) =>
+    (objs.zipIdx.filter (fun (q : HObj × Nat) => p.2 < q.2)).filterMap (fun (q : HObj × Nat) =>
+      let x := p.1; let y := q.1
+      let c := x.cfg == y.cfg
+      let s := x.st == y.st
+      let b := x.buf == y.buf && decide (x.off < y.off + y.len ∧ y.off < x.off + x.len)
+      if c || s || b then
+        some s!"{x.name}-{y.name}:{if c then "c" else ""}{if s then "s" else ""}{if b then "b" else ""}"
+      else none))
+  if pairs.isEmpty then "-" else ",".intercalate pairs
+
+def showHeap (h : Heap) : String := ";".intercalate (h.objs.map (showObj h)) ++ "|" ++ sharing h
+
+def runHeapObs (h : Heap) : List HStep → List String
+  | [] => []
+  | s :: rest => let h' := h.step s; (showHeap h').replace " " "" :: runHeapObs h' rest
+
+/-- `HEAP <step>* | <snapshot>*` — object-graph histories; after every step the observable state of all live
+objects and the sharing graph are compared. -/
+def opHEAP (args obs : List String) : P String := do
+  let steps ← args.mapM pHStep
+  let model := (runHeapObs emptyHeap steps).map (fun s => s.replace "|" "#")
+  pure (functional model obs)
+
+/-- `INP <kind> <payload> | unchanged` — building an object from a container never modifies the container. -/
+def opINP (_args obs : List String) : P String := pure (functional ["1"] obs)
+
+/-- `BCF <where> <key> <value> | outcome` — an invalid configuration value is rejected with an error and not stored. -/
+def opBCF (_args obs : List String) : P String :=
+  pure (reply (obs == ["REJECTED"]) (obs == ["REJECTED"]) ["REJECTED"])
+
 /-- `UN <op=neg|pos|abs> <fx> [codes] | s n f [codes]` — unary operators build a default-config object. -/
 def opUN (args obs : List String) : P String := do
   match args with
@@ -880,6 +942,9 @@ def dispatch (op : String) (args obs : List String) : P String :=
   | "NC" => opNC args obs
   | "DR" => opDR args obs
   | "SB" => opSB args obs
+  | "INP" => opINP args obs
+  | "BCF" => opBCF args obs
+  | "HEAP" => opHEAP args obs
   | "HIST" => opHIST args obs
   | "RD" => opRD args obs
   | "RDD" => opRDD args obs
